@@ -17,10 +17,29 @@ Record acase20 := mk_acase20 { a20_recs : list arec }.
 
 Definition clause (c : acase20) : N := match attr_first_bad_why (a20_recs c) with Some (_, k) => k | None => 0 end.
 
+(* (d) a message of an attempt is delivered WHILE THE ATTEMPT IS STILL REGISTERED (the composed theorem
+   `C20_delivered_before_the_attempt_is_forgotten`, Props/C20.v: the collector forgets an attempt only after the results of all
+   its steps and hooks, and every log is forwarded before its step's result). Clause (c) alone would accept a delivery after
+   the unregistration as long as it reaches SOME registered scenario (second review, M1). *)
+Fixpoint late_walk (st : astate) (rs : list arec) : bool :=
+  match rs with
+  | [] => true
+  | r :: t =>
+    (match r with
+     | ADeliver _ _ (Some m) =>
+       match alookup m (a_known st) with
+       | Some k => is_some (alookup k (a_reg st))
+       | None => true
+       end
+     | _ => true
+     end) && late_walk (astep st r) t
+  end.
+Definition not_late (c : acase20) : bool := late_walk ainit (a20_recs c).
+
 (* clause (a) failing is a disagreement between model and implementation; (b) / (c) failing is the property failing *)
 Definition verdict (id : N) (c : acase20) : list (list N) :=
   let k := clause c in
-  [vrow id 1 (judge (negb ((k =? 2) || (k =? 3))) (negb (k =? 1)) 0);
+  [vrow id 1 (judge (negb ((k =? 2) || (k =? 3)) && not_late c) (negb (k =? 1)) 0);
    (* informational: the hypotheses of the attribution theorem (Props/C20.v: `shaped`: fresh spans, known parents, ids given
       at creation) hold of the observed records *)
    [id; 90; 0; if shaped (a20_recs c) then 1 else 0]].
